@@ -1,6 +1,7 @@
+import Gv.Oracle.Det
 import Gv.Oracle.Fmt
 import Gv.Oracle.Loop
 /-! oracle of property C02: only the handlers it needs -/
 open Gv Gv.Oracle
 
-def main : IO Unit := runOracle [FmtOps.handle]
+def main : IO Unit := runOracle [FmtOps.handle, DetOps.handle]
